@@ -7,6 +7,8 @@ use sycamore::prelude::*;
 
 #[path = "../../native/src/util.rs"]
 mod util;
+#[path = "../../common/vd.rs"]
+mod vd;
 mod engine;
 mod view;
 
